@@ -237,7 +237,10 @@ func errKind(err error) string {
 // inputs of one program: variable assignments x balance vectors
 // ---------------------------------------------------------------------------
 
-var balanceMenu = []int64{-3, 0, 1, 5, 100}
+// -1 lies strictly inside the bounded overdraft of the source menu (up to [COIN 2]): an
+// account already in its overdraft but not at its bound (seeded change C23: `max(0, balance) +
+// overdraft` hands the used part out a second time only from such a balance).
+var balanceMenu = []int64{-3, -1, 0, 1, 5, 100}
 
 const (
 	assetMain  = "COIN"
